@@ -596,6 +596,7 @@ fn exec(
                 if let Some(seed) = inst.seed {
                     st.verif_set_story_seed(seed);
                 }
+                st.verif_set_step_fuel(default_fuel);
                 *inst.lines.borrow_mut() = 0;
             }
             unit!(res)
@@ -686,6 +687,7 @@ fn run_script(
     for (opi, op0) in script.iter().enumerate() {
         let on = op0.get("on").and_then(|x| x.as_u64()).unwrap_or(0);
         let is_turn = op0.get("op").and_then(|x| x.as_str()) == Some("turn");
+        let is_slices = op0.get("op").and_then(|x| x.as_str()) == Some("slices");
         let mut reps = 0;
         loop {
             let inst = insts.entry(on).or_insert_with(|| Inst {
@@ -699,12 +701,23 @@ fn run_script(
             });
             let op: J = if is_turn {
                 let can = inst.story.as_ref().map(|s| s.can_continue()).unwrap_or(false);
+                if reps >= 500 {
+                    faulted = true; // a turn that never ends: not explored further
+                }
                 if !can || inst.poisoned || reps >= 500 {
                     break;
                 }
                 let mut o = op0.clone();
                 o.as_object_mut().unwrap().insert("op".into(), json!("cont"));
                 o.as_object_mut().unwrap().insert("macro".into(), json!("turn"));
+                o
+            } else if is_slices {
+                if inst.poisoned || reps >= 5000 {
+                    break;
+                }
+                let mut o = op0.clone();
+                o.as_object_mut().unwrap().insert("op".into(), json!("cont_async"));
+                o.as_object_mut().unwrap().insert("macro".into(), json!("slices"));
                 o
             } else {
                 op0.clone()
@@ -766,8 +779,17 @@ fn run_script(
                 }
             }
             rec.insert("live".into(), json!(LIVE.load(Ordering::Relaxed)));
+            let rec_finished = rec.get("finished").and_then(|x| x.as_bool()).unwrap_or(true)
+                || rec.get("res").and_then(|x| x.as_str()) != Some("ok");
             if opi >= emit_from {
                 writeln!(out, "{}", J::Object(rec)).unwrap();
+            }
+            if is_slices {
+                let fin = rec_finished;
+                if fin || faulted {
+                    break;
+                }
+                continue;
             }
             if !is_turn || faulted {
                 break;
